@@ -419,4 +419,144 @@ def cInit (k : Nat) (plan : List PlanItem) (ds : List MktEv) : BT CEng CExch Mkt
 instrument: with zero fees the realised PnL of a flat position is its cash flow). -/
 def cSummarise (s : CEng) : AView := s.av
 
+/-! ## Long datasets given by a formula, observed through digests (`longdata n k rp ro pm tm`)
+
+The property speaks of ALL datasets; the list-recording engine above (`seen := seen ++ [id]`) is
+quadratic in the dataset length and is only run on short ones. For datasets of 10^4 - 10^5 events the
+driver runs `lEngine`: the same strategy (`stratEmit`, same `plan / next / nMkt / price / reqs`), but it
+records a DIGEST of the market stream it processes instead of the list: counts, the first index at
+which the stream differs from the dataset, a cursor that counts repeats and positions jumped over, a
+rolling hash of the content, and per instrument a count and a hash of the ids. `Props/C20.lean` proves
+that the digest is exactly the digest of what `cEngine` records (`long_digest_refines_recording`), that
+it is a `MarketView` (schedule independent, `long_market_view`) and what it is on an intact dataset
+(`long_digest_of_dataset`). -/
+
+/-- `longdata n k rp ro pm tm` (`harness/src/bin/c20.rs`, `long_event`). -/
+structure LParams where
+  n : Nat
+  k : Nat
+  rp : Nat
+  ro : Nat
+  pm : Nat
+  tm : Nat
+  deriving DecidableEq, Repr
+
+/-- One element of a long dataset: the stream event plus what `MktEv` does not carry (trade side,
+exchange time in ms). -/
+structure LEv where
+  ev : MktEv
+  sell : Bool
+  time : Nat
+  deriving DecidableEq, Repr
+
+/-- position `pos` holds a `Reconnecting` marker -/
+def LParams.isMarker (p : LParams) (pos : Nat) : Bool := decide (0 < p.rp) && pos % p.rp == p.ro
+
+/-- the dataset element at position `pos`: a function of the position alone -/
+def genEv (p : LParams) (pos : Nat) : LEv :=
+  if p.isMarker pos then ⟨.reconnecting pos, false, 0⟩
+  else
+    let i := (pos + pos / 3) % p.k
+    ⟨.trade pos i (50 + 50 * i + pos % p.pm), pos % 3 == 1, 1 + pos * p.tm⟩
+
+def genData (p : LParams) : List LEv := (List.range p.n).map (genEv p)
+
+/-- the dataset as the engine's recorder would show it: `some id` for an Item, `none` for a marker -/
+def LParams.tok (p : LParams) (pos : Nat) : Option Nat := if p.isMarker pos then none else some pos
+
+def hashMod : Nat := 4294967291
+
+/-- rolling hash step shared with the harness (`mix`); all intermediate values stay below 2^53 -/
+def mix (h x : Nat) : Nat := (h * 1000003 + x + 1) % hashMod
+
+/-- content of one stream event: id (+1; a marker mixes 0), instrument, price, side, exchange time -/
+def mixEv (h : Nat) (e : LEv) : Nat :=
+  if e.ev.marker then mix h 0
+  else mix (mix (mix (mix (mix h (e.ev.id + 1)) e.ev.inst) e.ev.price) (if e.sell then 1 else 0)) e.time
+
+/-- Digest of a sequence of recorder tokens relative to the dataset of `p` (`long_seen_digest` in the
+harness): `cnt` tokens so far, of which `items` Items and `markers` markers; `firstBad` = first index
+whose token is not the dataset's; `expect` = cursor into the dataset: an Item at or beyond the cursor
+moves it behind that Item and adds the positions jumped over to `skipped`, an Item behind the cursor (a
+repeat, a reordering) or a marker where the dataset has none adds 1 to `dups`. -/
+structure SeqDig where
+  cnt : Nat
+  items : Nat
+  markers : Nat
+  expect : Nat
+  dups : Nat
+  skipped : Nat
+  firstBad : Option Nat
+  deriving DecidableEq, Repr
+
+def SeqDig.init : SeqDig := ⟨0, 0, 0, 0, 0, 0, none⟩
+
+def SeqDig.step (p : LParams) (d : SeqDig) (tok : Option Nat) : SeqDig :=
+  let same := decide (d.cnt < p.n) && tok == p.tok d.cnt
+  let fb := if !same && d.firstBad.isNone then some d.cnt else d.firstBad
+  match tok with
+  | some id =>
+    if d.expect ≤ id then
+      { d with cnt := d.cnt + 1, items := d.items + 1, firstBad := fb,
+               skipped := d.skipped + (id - d.expect), expect := id + 1 }
+    else { d with cnt := d.cnt + 1, items := d.items + 1, firstBad := fb, dups := d.dups + 1 }
+  | none =>
+    if decide (d.expect < p.n) && p.isMarker d.expect then
+      { d with cnt := d.cnt + 1, markers := d.markers + 1, firstBad := fb, expect := d.expect + 1 }
+    else { d with cnt := d.cnt + 1, markers := d.markers + 1, firstBad := fb, dups := d.dups + 1 }
+
+/-- per instrument: number of Items and rolling hash of their ids -/
+def instStep (d : Nat × Nat) (id : Nat) : Nat × Nat := (d.1 + 1, mix d.2 id)
+
+structure Dig where
+  seq : SeqDig
+  hash : Nat
+  inst : List (Nat × Nat)
+  deriving DecidableEq, Repr
+
+def Dig.init (k : Nat) : Dig := ⟨SeqDig.init, 0, List.replicate k (0, 0)⟩
+
+def Dig.step (p : LParams) (d : Dig) (e : LEv) : Dig :=
+  if e.ev.marker then { d with seq := d.seq.step p none, hash := mixEv d.hash e }
+  else { seq := d.seq.step p (some e.ev.id), hash := mixEv d.hash e,
+         inst := modifyAt d.inst e.ev.inst (instStep · e.ev.id) }
+
+/-- `MView.onMarket` without the two recording lists. -/
+def MView.onMarketCore (v : MView) (m : MktEv) : MView :=
+  if m.marker then v
+  else { v with nMkt := v.nMkt + 1, price := v.price.set m.inst (some m.price) }
+
+/-- forget the recording lists of a market view -/
+def MView.strip (v : MView) : MView := { v with seen := [], instSeen := [] }
+
+/-- The digesting engine: `mv` is the strategy's part of `MView` (its `seen` / `instSeen` stay empty),
+`dg` the digest of the market stream processed, `av` the account view. -/
+structure LEng where
+  p : LParams
+  mv : MView
+  dg : Dig
+  av : AView
+  deriving DecidableEq, Repr
+
+/-- `cProcess` with the recorder replaced by the digest. -/
+def lProcess (s : LEng) : Ev LEv AccEv → LEng × List Req
+  | .shutdown => (s, [])
+  | .market e =>
+    let v := s.mv.onMarketCore e.ev
+    let r := stratEmit (v.plan.length + 1) v
+    ({ s with mv := r.1, dg := s.dg.step s.p e }, r.2)
+  | .account a =>
+    let r := stratEmit (s.mv.plan.length + 1) s.mv
+    ({ s with mv := r.1, av := s.av.onAccount a }, r.2)
+
+def lEngine : Engine LEng LEv AccEv Req := { process := lProcess, fatal := fun _ _ => false }
+
+def LSettled (s : LEng) : Prop := ∀ fuel, stratEmit fuel s.mv = (s.mv, [])
+
+def lEng0 (p : LParams) (plan : List PlanItem) : LEng :=
+  { p := p, mv := (cEng0 p.k plan).mv.strip, dg := Dig.init p.k, av := (cEng0 p.k plan).av }
+
+/-- what the driver prints of a digesting engine -/
+def lView (s : LEng) : LParams × MView × Dig := (s.p, s.mv, s.dg)
+
 end BarterModel.Backtest
